@@ -98,6 +98,11 @@ def hasher_nf(P, h, depth=0):
             return {"algo": base["algo"], "parts": base["parts"] + [("each", sv["base"])]}
         if nm in PLUMB and len(h[2]) == 1:
             return hasher_nf(P, h[2][0], depth + 1)
+        H = P.fns.get(h[1])
+        if H is not None and H.has_body and H.crate.startswith("frost"):
+            # a workspace helper that returns a (pre-fed) hasher, instantiated with the call's arguments
+            sub = {i + 1: a for i, a in enumerate(h[2])}
+            return hasher_nf(P, TermCx(P, H, sub, 1).local(0), depth + 1)
     if h == ("acc",):
         return {"algo": "ACC", "parts": []}
     return None
